@@ -114,13 +114,10 @@ def c13(tier):
     for gid, evs in groups.items():
         traces.append({"id": gid, "events": evs})
     d = workdir("C13")
-    path = os.path.join(d, "traces.ndjson")
-    tlc.write_ndjson(path, traces)
-    res = tlc.run_tlc("Compile", env={"CASES": path}, workers=max(2, NCPU - 2), timeout=1800)
-    rep.add_tlc(res)
-    verdicts = {r["id"]: r for r in res.records if "verdict" in r}
-    if len(verdicts) != len(traces):
-        raise ToolError("Compile returned %d verdicts for %d traces\n%s" % (len(verdicts), len(traces), res.raw_tail))
+    for t in traces:
+        for e in t["events"]:
+            e.setdefault("size", 0)
+    verdicts = tlc.validate_in_chunks("Compile", traces, rep, "C13", chunk=6000)
     rep.coverage["traces_validated_against_impl"] = len(traces)
     rep.coverage["observations"] = nobs
     rep.coverage["processes"] = nproc
